@@ -1,4 +1,4 @@
-(* split_graph: the parts re-joined along the cut edges denote what the input denotes. *)
+(* split_graph_k: the parts re-joined along the cut edges denote what the input denotes. *)
 From Coq Require Import List String Bool Arith Lia.
 From EKW Require Import Graph.GStore Graph.Denote Graph.Engine Graph.EngineProofs Graph.Split.
 Import ListNotations.
@@ -271,11 +271,11 @@ Qed.
 (* every sink of the input is a sink of one of the parts and, the cut sources standing for
    the outputs they replaced, denotes what it denoted in the input *)
 Lemma split_rejoin_sem : forall (g : graph P) r, h = heap g ->
-  split_graph keqb key cut_name g = Ok r ->
+  split_graph_k keqb key cut_name g = Ok r ->
   exists rs, Forall2 (fun s x => in_part (rparts r) x /\
                                  forall o, sem_rj (rstands r) (rheap r) x o = sem h s o) (sinks g) rs.
 Proof.
-  intros g r Hh H. unfold split_graph in H. rewrite <- Hh in H.
+  intros g r Hh H. unfold split_graph_k in H. rewrite <- Hh in H.
   destruct (transform (split_visit keqb key cut_name) split_output h (sinks g) (mkS [] [] [] [] [])) as [[[st rs] done]|] eqn:Htr; simpl in H; [|discriminate].
   injection H as <-.
   destruct (transform_inv P _ _ _ _ _ h SI split_visit_inv (sinks g) (mkS [] [] [] [] []) st rs done) as [[Hb HR] HF];
@@ -407,10 +407,10 @@ Qed.
 
 (* one (sink, source) pair per reported cut, in order, each as described by cut_ok *)
 Lemma split_cuts_exact : forall (g : graph P) r, h = heap g ->
-  split_graph keqb key cut_name g = Ok r ->
+  split_graph_k keqb key cut_name g = Ok r ->
   Forall2 (cut_ok (rheap r) (rparts r)) (rcuts r) (rev (rpairs r)).
 Proof.
-  intros g r Hh H. unfold split_graph in H. rewrite <- Hh in H.
+  intros g r Hh H. unfold split_graph_k in H. rewrite <- Hh in H.
   destruct (transform (split_visit keqb key cut_name) split_output h (sinks g) (mkS [] [] [] [] [])) as [[[st rs] done]|] eqn:Htr; simpl in H; [|discriminate].
   injection H as <-.
   destruct (transform_inv P _ _ _ _ _ h (fun d s => CE s)
@@ -581,11 +581,11 @@ Qed.
 
 (* a node of the result is reachable from the sinks of at most one part *)
 Lemma split_partition : forall (g : graph P) r, h = heap g ->
-  split_graph keqb key cut_name g = Ok r ->
+  split_graph_k keqb key cut_name g = Ok r ->
   forall x k1 ss1 k2 ss2, In (k1, ss1) (rparts r) -> In (k2, ss2) (rparts r) ->
     reachable (rheap r) ss1 x -> reachable (rheap r) ss2 x -> (k1, ss1) = (k2, ss2).
 Proof.
-  intros g r Hh H. unfold split_graph in H. rewrite <- Hh in H.
+  intros g r Hh H. unfold split_graph_k in H. rewrite <- Hh in H.
   destruct (transform (split_visit keqb key cut_name) split_output h (sinks g) (mkS [] [] [] [] [])) as [[[st rs] done]|] eqn:Htr; simpl in H; [|discriminate].
   injection H as <-.
   destruct (transform_inv P _ _ _ _ _ h PI split_visit_PI (sinks g) (mkS [] [] [] [] []) st rs done) as [(labs & HL & HD) HF].
